@@ -19,7 +19,7 @@ Open Scope Z_scope.
 Theorem c09_translator_ok : PoolSrc_translator_ok = true.
 Proof. exact (eq_refl true). Qed.
 
-(* resource_manager.go: Increase / Decrease count whatever the limit (max_requests = 0 only makes CanCreate admit
+(* resource_manager.go: Increase / Decrease count whatever the limit (max_requests = 0 only makes CanCreate let
    everything), so the Requests resource below equals the live streams (+ external holders) for EVERY max_requests *)
 Theorem c09_resource_counts_unlimited : poolres_src_counts_unlimited = true.
 Proof. exact (eq_refl true). Qed.
@@ -71,7 +71,7 @@ Print Assumptions c09_no_dirty_reuse.
 
 (* Capacity returns.  After every history (finished, failed, refused requests in any mix): a refused NewStream
    (overflow, connection refused, dial time-out) leaves the pool unchanged - nothing is taken and lost; and whenever
-   fewer than max_connections connections are leased (or max_connections = 0) and the Requests limit admits one more,
+   fewer than max_connections connections are leased (or max_connections = 0) and the Requests limit accepts one more,
    a NewStream whose dial succeeds is granted a connection. *)
 Theorem c09_capacity_returns : forall k ops, k_sw k = pool_src_switches -> let p := run k ops init in
   (forall d send, (forall c, snd (step k p (NewStream d send)) <> RL c) -> fst (step k p (NewStream d send)) = p) /\
@@ -234,11 +234,11 @@ Print Assumptions c09_connect_books.
    ping-pong pool counts the new connection inside the critical section that tested the limit (read from the source;
    the HTTP/1 pool has that shape), so under every schedule at most max_connections connections are dialled; counting
    after the dial (ping-pong before the repair) lets every caller pass the test. *)
-Theorem c09_max_connections_concurrent : admit_statement (conn_cfg poolinit_src_pp_count_locked).
+Theorem c09_max_connections_concurrent : entry_statement (conn_cfg poolinit_src_pp_count_locked).
 Proof. exact conn_count_locked_safe. Qed.
 Print Assumptions c09_max_connections_concurrent.
 
-Theorem c09_count_after_dial_refuted : ~ admit_statement (conn_cfg false).
+Theorem c09_count_after_dial_refuted : ~ entry_statement (conn_cfg false).
 Proof. exact conn_count_after_dial_refuted. Qed.
 Print Assumptions c09_count_after_dial_refuted.
 
